@@ -2,7 +2,8 @@
 
 use crate::common::*;
 use crate::e2::*;
-use crate::sim::{self, E2Case, FaultPlan};
+use crate::sim::{self, E2Case, FaultPlan, SimState};
+use elvis_core::verif::{Copy as FrameCopy, FrameView, Verdict};
 use elvis::applications::ArpRouter;
 use elvis_core::machine::PciSlot;
 use elvis_core::protocols::arp::subnetting::{Ipv4Mask, Ipv4Net, SubnetInfo};
@@ -32,6 +33,8 @@ struct Topo {
     /// hosts: (subnet, ip, gateway ip)
     hosts: Vec<(usize, [u8; 4], [u8; 4])>,
     n_subnets: usize,
+    subnet_bits: Vec<u32>,
+    storm: bool,
 }
 
 #[derive(Clone, Debug)]
@@ -55,6 +58,9 @@ fn in_prefix(addr: [u8; 4], ip: [u8; 4], bits: u32) -> bool {
 }
 
 /// reference longest-prefix match
+/// Datagram ids of the second round of a storm run.
+const SECOND: u64 = 1 << 40;
+
 fn lpm(entries: &[Entry], addr: [u8; 4]) -> Option<&Entry> {
     entries
         .iter()
@@ -74,13 +80,49 @@ impl E2Run for Route {
         let (status, state) = sim::run_sim(case, default_cfg(), move || async move {
             draw_scheduler_knobs();
             let delay_pm = *[0u64, 200, 600].get(sim::choose(3) as usize).unwrap();
-            sim::with_state(|s| {
-                s.plan = FaultPlan {
-                    delay: delay_pm,
-                    max_delay_ms: 100,
-                    ..Default::default()
-                }
-            });
+            // storm: the frames some taps send during the first 2.1..6.1 s are held back until then,
+            // longer than the 2 s an ARP resolution waits; a second round of datagrams follows once all is quiet
+            let storm = sim::chance(1, 4);
+            if storm {
+                sim::count("probe_runs_with_arp_storm");
+                // per sending tap: are its frames of the first hold_ms held back until then?
+                let hold_ms = 2100 + sim::choose(4000);
+                sim::with_state(|s| {
+                    let mut held: BTreeMap<u64, bool> = BTreeMap::new();
+                    s.policy = Some(Box::new(move |f: &FrameView, s: &mut SimState, _e: u64| -> Option<Verdict> {
+                        let now = s.start.elapsed().as_millis() as u64;
+                        if now >= hold_ms {
+                            return None;
+                        }
+                        let h = match held.get(&f.sender) {
+                            Some(h) => *h,
+                            None => {
+                                let h = s.draw(2) == 1;
+                                held.insert(f.sender, h);
+                                h
+                            }
+                        };
+                        if !h {
+                            return None;
+                        }
+                        *s.counters.entry("fault_frame_held_back".into()).or_insert(0) += 1;
+                        Some(Verdict {
+                            copies: vec![FrameCopy {
+                                delay: Duration::from_millis(hold_ms - now + s.draw(300)),
+                                bytes: None,
+                            }],
+                        })
+                    }))
+                });
+            } else {
+                sim::with_state(|s| {
+                    s.plan = FaultPlan {
+                        delay: delay_pm,
+                        max_delay_ms: 100,
+                        ..Default::default()
+                    }
+                });
+            }
             // ---- topology: routers joined by subnets in a line, a star or a ring
             let n_routers = 1 + sim::choose(4) as usize;
             let shape = sim::choose(3); // 0 line, 1 star, 2 ring
@@ -121,8 +163,30 @@ impl E2Run for Route {
                     }
                 }
             }
-            let subnet_ip = |s: usize, host: u8| -> [u8; 4] { [10, s as u8 + 1, 0, host] };
+            // subnet s is 10.(8(s+1)).0.0/bits with bits in 22..=26
+            let subnet_bits: Vec<u32> = (0..n_subnets).map(|_| *[24u32, 24, 22, 23, 25, 26].get(sim::choose(6) as usize).unwrap()).collect();
+            let sb2 = subnet_bits.clone();
+            let subnet_ip = |s: usize, host: u8| -> [u8; 4] { [10, 8 * (s as u8 + 1), 0, host] };
             let router_ip = |r: usize, s: usize| -> [u8; 4] { subnet_ip(s, 1 + r as u8) };
+            // a host address: ordinary, or one of the corners of a wide subnet (last octet 255 or 0
+            // in the middle of the block, the address below the broadcast address)
+            let host_ip = |s: usize, h: usize| -> [u8; 4] {
+                let bits = sb2[s];
+                let base = u(subnet_ip(s, 0));
+                let size = 1u32 << (32 - bits);
+                let pick = sim::choose(6);
+                let off = match pick {
+                    0 if size > 256 => 255,
+                    1 if size > 256 => 256,
+                    2 if size > 512 => 511 + 256 * sim::choose((size / 256 - 2) as u64) as u32,
+                    3 => size - 2,
+                    _ => 10 + h as u32,
+                };
+                if off % 256 == 255 || off % 256 == 0 {
+                    sim::count("probe_host_address_ending_in_255_or_0");
+                }
+                (base + off).to_be_bytes()
+            };
             // hosts
             let mut hosts: Vec<(usize, [u8; 4], [u8; 4])> = vec![];
             for s in 0..n_subnets {
@@ -130,7 +194,11 @@ impl E2Run for Route {
                 let n_hosts = 1 + sim::choose(3) as usize;
                 for h in 0..n_hosts {
                     let gw_router = attached[sim::choose(attached.len() as u64) as usize];
-                    hosts.push((s, subnet_ip(s, 10 + h as u8), router_ip(gw_router, s)));
+                    let mut ip = host_ip(s, h);
+                    if hosts.iter().any(|x: &(usize, [u8; 4], [u8; 4])| x.1 == ip) {
+                        ip = subnet_ip(s, 10 + h as u8);
+                    }
+                    hosts.push((s, ip, router_ip(gw_router, s)));
                 }
             }
             // ---- routing tables: shortest path next hops, then perturbations
@@ -156,7 +224,7 @@ impl E2Run for Route {
                     let entry = if let Some(slot) = router_subnets[r].iter().position(|s| *s == dst) {
                         Some(Entry {
                             ip: subnet_ip(dst, 0),
-                            bits: 24,
+                            bits: subnet_bits[dst],
                             next: None,
                             slot,
                         })
@@ -182,7 +250,7 @@ impl E2Run for Route {
                         }
                         found.map(|(o, s)| Entry {
                             ip: subnet_ip(dst, 0),
-                            bits: 24,
+                            bits: subnet_bits[dst],
                             next: Some(router_ip(o, s)),
                             slot: router_subnets[r].iter().position(|x| *x == s).unwrap(),
                         })
@@ -238,10 +306,10 @@ impl E2Run for Route {
                                 let (o, s) = nb[sim::choose(nb.len() as u64) as usize];
                                 let dst = sim::choose(n_subnets as u64) as usize;
                                 if !router_subnets[r].contains(&dst) {
-                                    tables[r].retain(|e| !(e.bits == 24 && e.ip == subnet_ip(dst, 0)));
+                                    tables[r].retain(|e| !(e.bits == subnet_bits[dst] && e.ip == subnet_ip(dst, 0)));
                                     tables[r].push(Entry {
                                         ip: subnet_ip(dst, 0),
-                                        bits: 24,
+                                        bits: subnet_bits[dst],
                                         next: Some(router_ip(o, s)),
                                         slot: router_subnets[r].iter().position(|x| *x == s).unwrap(),
                                     });
@@ -290,6 +358,8 @@ impl E2Run for Route {
                     .collect(),
                 hosts: hosts.clone(),
                 n_subnets,
+                subnet_bits: subnet_bits.clone(),
+                storm,
             };
             *t2.lock().unwrap() = topo.clone();
             // ---- machines
@@ -329,11 +399,15 @@ impl E2Run for Route {
             for k in 0..n_dgrams {
                 let src = sim::choose(n_hosts as u64) as usize;
                 let dst = match sim::choose(8) {
-                    0 => [10, 1 + sim::choose(n_subnets as u64) as u8, 0, 99], // no such host
-                    1 => [10, 77, 0, 10],                                      // no such subnet
+                    0 => subnet_ip(sim::choose(n_subnets as u64) as usize, 99), // no such host
+                    1 => [10, 250, 0, 10],                                      // no such subnet
                     _ => hosts[sim::choose(n_hosts as u64) as usize].1,
                 };
                 plans[src].push((k as u64 + 1, dst, sim::choose(3) * sim::choose(200)));
+                if storm {
+                    // the same pair again when every held-back frame has long arrived
+                    plans[src].push(((k as u64 + 1) | SECOND, dst, 40_000 + sim::choose(3) * sim::choose(200)));
+                }
             }
             for (h, (s, ip, gw)) in hosts.iter().enumerate() {
                 let plan = plans[h].clone();
@@ -389,7 +463,7 @@ impl E2Run for Route {
                         .with(Pci::new([nets[*s].clone()]))
                         .with(Arp::new().preconfig_subnet(
                             Ipv4Address::new(ip),
-                            SubnetInfo::new(Ipv4Mask::from_bitcount(24), Ipv4Address::new(*gw)),
+                            SubnetInfo::new(Ipv4Mask::from_bitcount(subnet_bits[*s]), Ipv4Address::new(*gw)),
                         ))
                         .with(app)
                         .arc(),
@@ -429,12 +503,21 @@ impl E2Run for Route {
             let mut deliver_to: Option<usize> = None;
             let mut fate = "delivered";
             // first hop: the host resolves the destination itself (same /24) or its gateway
-            let same = in_prefix(d.dst, src_ip, 24);
+            let same = in_prefix(d.dst, src_ip, topo.subnet_bits[src_subnet]);
+            // first round of a storm run: a hop whose resolution ran out of patience drops the datagram
+            let may_stop_early = topo.storm && d.id & SECOND == 0;
+            if topo.storm && d.id & SECOND != 0 && !d.opened && claimed(src_subnet, if same { d.dst } else { gw }).is_some() {
+                out.violate(Violation::new(
+                    "resolution",
+                    "still-failing-after-the-answer-arrived",
+                    format!("datagram {} (second round, 40 s after the held-back frames): the source could not resolve its first hop although that machine answered", d.id & !SECOND),
+                ));
+            }
             let first_target = if same { d.dst } else { gw };
             let mut ttl: i32 = 30;
             let mut at: Option<(bool, usize)> = None; // where the frame lands
             match claimed(src_subnet, first_target) {
-                Some(owner) if d.opened => {
+                Some(owner) if d.opened || may_stop_early => {
                     expect.push((src_subnet, ttl as u8));
                     at = Some(owner);
                 }
@@ -500,7 +583,11 @@ impl E2Run for Route {
                     format!("datagram {} appeared in {} frames, its initial time-to-live was 30", d.id, observed.len()),
                 ));
             }
-            if observed != expect {
+            let excused = may_stop_early && observed.len() < expect.len() && expect[..observed.len()] == observed[..];
+            if excused {
+                out.count("probe_datagram_dropped_by_impatient_resolution");
+            }
+            if observed != expect && !excused {
                 let kind = if observed.len() > expect.len() && observed[..expect.len()] == expect[..] {
                     "extra-forwarding"
                 } else if observed.len() < expect.len() && expect[..observed.len()] == observed[..] {
@@ -530,7 +617,7 @@ impl E2Run for Route {
             match deliver_to {
                 Some(h) => {
                     let n = rx.iter().filter(|r| r.machine == h).count();
-                    if n != 1 {
+                    if n != 1 && !(excused && n == 0) {
                         out.violate(Violation::new(
                             "delivery",
                             if n == 0 { "missing" } else { "duplicated" },
@@ -570,7 +657,7 @@ impl E2Run for Route {
     fn budget(&self, tier: &Tier) -> (u64, u64) {
         match tier {
             Tier::Quick => (100_000, 50),
-            Tier::Thorough => (8_000_000, 3000),
+            Tier::Thorough => (8_000_000, 1200),
         }
     }
 
